@@ -112,6 +112,12 @@ func libDecodePDU(s *refper.Schema, b []byte) (n *refper.Node, err error, panick
 		return nil, err, false
 	}
 	n, e := gobridge.FromGo(s, "NGAPPDU", reflect.ValueOf(pdu))
+	// the decoded Go value handed straight back to the encoder (what forwarding code does; decoded BIT STRINGs carry
+	// the following field's bits in the unused part of their last octet)
+	ngapDirectReencode, ngapDirectReencodeErr = nil, nil
+	if perr := recoverErr(func() { ngapDirectReencode, ngapDirectReencodeErr = ngap.Encoder(*pdu) }); perr != nil {
+		ngapDirectReencodeErr = perr
+	}
 	ngapDecodeAliases = ""
 	if e == nil {
 		// the caller re-uses its receive buffer: the decoded value must not change with it
@@ -126,6 +132,10 @@ func libDecodePDU(s *refper.Schema, b []byte) (n *refper.Node, err error, panick
 	}
 	return n, e, false
 }
+
+// ngapDirectReencode: what the library's encoder makes of the value its decoder just returned (set by libDecodePDU / libDecodeTransfer).
+var ngapDirectReencode []byte
+var ngapDirectReencodeErr error
 
 // ngapDecodeAliases: set by libDecodePDU / libDecodeTransfer when the decoded value shares memory with the input.
 var ngapDecodeAliases string
@@ -159,6 +169,16 @@ func libDecodeTransfer(s *refper.Schema, typ string, b []byte) (n *refper.Node, 
 		return nil, err, false
 	}
 	n, e := gobridge.FromGo(s, typ, v)
+	ngapDirectReencode, ngapDirectReencodeErr = nil, nil
+	{
+		// (a bare transfer container decoded by aper refers to its input by design, and the encoder clears unused bits
+		// of BIT STRINGs in place: the input is put back afterwards so that this step is not mistaken for the decoder's doing)
+		keepIn := append([]byte{}, b...)
+		if perr := recoverErr(func() { ngapDirectReencode, ngapDirectReencodeErr = aper.MarshalWithParams(v.Elem().Interface(), "valueExt") }); perr != nil {
+			ngapDirectReencodeErr = perr
+		}
+		copy(b, keepIn)
+	}
 	ngapDecodeAliases = ""
 	if e == nil {
 		keep := append([]byte{}, b...)
